@@ -5,6 +5,8 @@ package main
 // wire fields, see buildTx).
 
 import (
+	"bytes"
+	"encoding/hex"
 	"encoding/json"
 	"fmt"
 	"math/big"
@@ -16,6 +18,7 @@ import (
 	"github.com/LemoFoundationLtd/lemochain-core/common"
 	"github.com/LemoFoundationLtd/lemochain-core/common/crypto"
 	"github.com/LemoFoundationLtd/lemochain-core/common/merkle"
+	"github.com/LemoFoundationLtd/lemochain-core/common/rlp"
 	"github.com/LemoFoundationLtd/lemochain-core/network"
 
 	"verif/fx"
@@ -427,12 +430,24 @@ func (g *G) signData(h common.Hash) types.SignData {
 
 // ---------------------------------------------------------------- transactions
 
+// wireMismatches collects transactions whose re-encoding differs from the wire bytes they were decoded from.
+// Generated transactions are born by decoding wire fields with the repository's decoder, so a decoder that
+// normalises a field (and thereby changes hash and signers) would otherwise be invisible to the round trip
+// v -> encode -> decode: v itself is already normalised. The value monitor drains this list.
+var wireMismatches []Case
+
 func buildTx(f *fx.TxFields) (*types.Transaction, error) {
 	tx, err := f.Tx()
 	if err != nil {
 		return nil, err
 	}
 	txOrigin[tx] = f
+	if wire, e1 := rlp.EncodeToBytes(f); e1 == nil {
+		if again, e2 := rlp.EncodeToBytes(tx); e2 == nil && !bytes.Equal(wire, again) && len(wireMismatches) < 4 {
+			wireMismatches = append(wireMismatches, Case{Mon: "value", Type: "Transaction", Hex: hex.EncodeToString(wire),
+				What: fmt.Sprintf("decoded from %d wire bytes, re-encodes to %d different bytes", len(wire), len(again))})
+		}
+	}
 	return tx, nil
 }
 
